@@ -4,16 +4,16 @@ import json, subprocess
 
 CLAIMED = {
  "C01": dict(
-   text="Seeded exploration of fibre-level interleavings of 1..3 application tasks, the TX task and the RX task around the real PDU loop (pre-emption at every instrumented shared-state access), against a scripted wire that returns unique, attributable bytes per datagram; every completed call is compared byte-for-byte with what the wire returned for that request, views are re-read after being held and after trim_front, and a request whose response was delivered must complete (lost wake-up = quiescence with a waiting caller). Sampling, not enumeration: a clean batch is evidence, not proof.",
-   note="Trusts: the cfg(ethercrab_verif) event sites cover every shared-state access of the PDU loop; fibres are sequentially consistent; the harness' own frame codec. Assumes < 256 indices outstanding and no deadline expiry (timeouts are beyond the time horizon).",
+   text="Seeded exploration of fibre-level interleavings of 1..3 application tasks, the TX task and the RX task around the real PDU loop (pre-emption at every instrumented shared-state access), against a scripted wire that returns unique, attributable bytes per datagram; every completed call is compared byte-for-byte with what the wire returned for that request, views are re-read after being held and after trim_front, and a request whose response was delivered must complete (lost wake-up = quiescence with a waiting caller). A quarter of the runs use finite deadlines that may only expire once every outstanding response has been received (late poll): the caller must still get its data. Sampling, not enumeration: a clean batch is evidence, not proof.",
+   note="Trusts: the cfg(ethercrab_verif) event sites cover every shared-state access of the PDU loop; fibres are sequentially consistent; the harness' own frame codec. Assumes < 256 indices outstanding; outside the late-poll runs there is no deadline expiry (timeouts are beyond the time horizon).",
    technique="deterministic simulation: seeded fibre scheduler (random/PCT/site-biased) + scripted wire, history oracle on attributable responses", section="DESIGN.md §4 C01"),
  "C02": dict(
-   text="Same scenario family with failed/partial sends and duplicate responses; decided by a happens-before race detector (vector clocks fed by the declared atomic orderings) over every buffer/bookkeeping access event of each slot, plus a slot-transition monitor restricted to the documented lifecycle and its legitimate actors. Auxiliary batch (reported separately in the evidence under coverage.miri_aux): a std-threads scenario (TX, RX, 1..4 application threads, each slot used once) under Miri's seeded scheduler and weak-memory-aware race detector, which sees the actual memory orderings of the atomics.",
+   text="Same scenario family with failed/partial sends, duplicate responses, premature copies of the response (before the transmit side finished) and, in a third of the runs, owners that drop their request at any instant; decided by a happens-before race detector (vector clocks fed by the declared atomic orderings) over every buffer/bookkeeping access event of each slot, plus a slot-transition monitor restricted to the documented lifecycle and its legitimate actors. Auxiliary batch (reported separately in the evidence under coverage.miri_aux): a std-threads scenario (TX, RX, 1..4 application threads, each slot used once) under Miri's seeded scheduler and weak-memory-aware race detector, which sees the actual memory orderings of the atomics.",
    note="Trusts the completeness of the BufAccess/Atomic instrumentation; SC execution in the fibre engine (there weak-memory reorderings are only visible through the declared orderings; the Miri batch covers the actual orderings but only histories without slot reuse and without timers; in the quick tier it is skipped if the nightly/miri toolchain cannot build it); a failed compare-exchange is treated as an acquire load (the property speaks about instants, see DESIGN §7).",
    technique="deterministic simulation: seeded fibre scheduler + vector-clock race detector + lifecycle monitor; auxiliary seeded-schedule runs under Miri (weak-memory data-race detector)", section="DESIGN.md §4 C02, §3.9"),
  "C03": dict(
-   text="Seeded histories (run-to-block granularity) over 1..8 slots mixing round trips, validation failures, send errors, partial sends, loss, duplicates, deadline expiry with retries, future drops and frames dropped unsent, followed by the public-API reallocation probe: all N slots allocatable again, the (N+1)-th refused.",
-   note="Abandonment exactly while TX/RX is inside the buffer is C06's window; the probe uses public API only.",
+   text="Seeded histories (run-to-block granularity; a third of the runs with the pre-emptive scheduler so that expiry and abandonment also land while TX/RX is inside the buffer) over 1..8 slots mixing round trips, validation failures, send errors, partial sends, loss, duplicates, deadline expiry with retries, future drops, forged replies slightly too long for the slot and frames dropped unsent, followed by the public-API reallocation probe: all N slots allocatable again, the (N+1)-th refused.",
+   note="The probe uses public API only; the lifecycle monitor runs alongside.",
    technique="deterministic simulation: seeded fault/operation histories + drain-and-reallocate probe", section="DESIGN.md §4 C03"),
  "C06": dict(
    text="Virtual-clock simulation: deadline expiry is a schedulable action at every scheduling point (so it lands inside the send call, inside the copy, before the first poll...), futures are dropped at any poll boundary, transmissions are lost in every pattern; oracles: all-lost requests resolve to a PDU timeout, never earlier than (1+retries)*T, with exactly 1+retries byte-identical transmissions when TX drains its queue before each deadline; a response already received wins; under arbitrary expiry/abandonment no buffer race, no illegal lifecycle edge, other requests exact, no panic, and the reallocation probe succeeds.",
@@ -22,7 +22,7 @@ CLAIMED = {
 }
 
 CLAIMED["C04"] = dict(
-   text="Two parts, reported separately in the evidence. (1) Generated push programs through the cfg-gated wrappers (all 11 command kinds, lengths around the remaining capacity, overrides below/equal/above, fill-the-rest pushes of 0..2*capacity) into frames of every menu size 28..1514, built in slots dirtied by a previous life (abandoned build, abandoned in flight, full response of ones): accept/refuse decisions, (consumed, handle) reports and every transmitted byte are compared with an independent encoder. (2) The wire monitor applies the per-frame well-formedness clauses to every frame transmitted in the scenarios of the other checks.",
+   text="Two parts, reported separately in the evidence. (1) Generated push programs through the cfg-gated wrappers (all 11 command kinds, lengths around the remaining capacity, overrides below/equal/above, fill-the-rest pushes of 0..2*capacity) into frames of every menu size 28..1514, built in slots dirtied by a previous life (abandoned build, abandoned in flight, full response of ones): accept/refuse decisions, (consumed, handle) reports and every transmitted byte are compared with an independent encoder. (2) A fibre-engine batch (wire-monitor-under-faults) under deadlines, retries, loss, send errors, partial sends, duplicates, premature and oversize copies, responses longer than their requests and abandonment at any instant: every frame the send closure is given is decoded independently, compared with what its request asked for, re-read while the driver holds it, and retransmissions are compared with the first transmission. (3) The wire monitor also applies the per-frame clauses to every frame transmitted in the scenarios of the other checks.",
    note="The independent encoder/decoder in sim/src/wire.rs and c_seq.rs is the trusted base; frame sizes above 1514 are not generated.",
    technique="deterministic simulation: seeded operation histories on the real PDU loop (slot reuse after responses/abandonment) + independent encoder as reference model", section="DESIGN.md §4 C04")
 CLAIMED["C05"] = dict(
@@ -31,15 +31,15 @@ CLAIMED["C05"] = dict(
    technique="deterministic simulation: seeded slot-state histories + hostile frame injection with whole-storage snapshot oracle", section="DESIGN.md §4 C05")
 
 CLAIMED["C09"] = dict(
-   text="Seeded networks of 0..capacity+2 simulated ESCs (capacity 4/8/16) with generated EEPROMs, stale station addresses (duplicates included), mailboxes, DC flags, 4/8 byte SII, drawn group assignment, run through the real MainDevice::init; oracle: count, station address register of every ring position, per-device identity/name/alias/DC support against the description of the device at that position, exactly-one-group membership, PRE-OP everywhere, Capacity error above capacity, empty groups for an empty network; a second batch injects SII busy polls and delayed PRE-OP/mailbox replies.",
-   note="Trusts the segment reference model (sim/src/esc) and the EEPROM image generator; chain topology; open ports are read through a cfg-gated accessor and compared with the link state each device reports.",
+   text="Seeded networks (chains, and trees in a third of the runs) of 0..capacity+2 simulated ESCs (capacity 4/8/16) that check their mailbox sync manager set-up on the way to PRE-OP, with generated EEPROMs, stale station addresses (duplicates included), mailboxes, DC flags, 4/8 byte SII, drawn group assignment, run through the real MainDevice::init; oracle: count, station address register of every ring position, per-device identity/name/alias/DC support against the description of the device at that position, exactly-one-group membership, PRE-OP everywhere, Capacity error above capacity, empty groups for an empty network; a second batch injects SII busy polls and delayed PRE-OP/mailbox replies.",
+   note="Trusts the segment reference model (sim/src/esc) and the EEPROM image generator; open ports are read through a cfg-gated accessor and compared with the link state each device reports.",
    technique="deterministic simulation: real init against an executable EtherCAT segment reference model under virtual time, seeded network configurations and device-side lag injection", section="DESIGN.md §4 C09")
 CLAIMED["C12"] = dict(
-   text="Generated well-formed EEPROM images (random descriptions incl. NUL/non-ASCII strings, categories in any order with unknown ones interleaved, 4 Kbit..4 Mbit) served through the simulated SII register protocol (4/8 byte data window, busy polls); 20..50 (start word, length) ranges per device incl. odd lengths and the last words, typed reads, eeprom_size, description, and (via init) name/identity; every returned byte and count is compared with the image.",
-   note="Well-formed = reserved bits zero, enumerations within defined values. Word addresses are 16 bit, so only the first 128 KiB of larger images are reachable. Parsed SM/FMMU/PDO values are checked through the registers in C08.",
+   text="Generated well-formed EEPROM images (random descriptions incl. NUL/non-ASCII strings, categories in any order with unknown ones interleaved, 4 Kbit..4 Mbit) served through the simulated SII register protocol (4/8 byte data window, busy polls); 20..50 (start word, length) ranges per device incl. odd lengths and the last words, typed reads, eeprom_size, description, and (via init) name/identity; every returned byte and count is compared with the image; drawn sequences of read/skip/read_byte on ONE range (guarded hook) are compared with a position model; the crate-internal parsed view (sync managers, FMMU usage, FMMU_EX mapping, PDOs with bit sums, mailbox, general, identity, alias, size) is compared field by field with the description the image was built from.",
+   note="Well-formed = reserved bits zero, enumerations within defined values. Word addresses are 16 bit, so only the first 128 KiB of larger images are reachable. Parsed values are additionally checked through the registers they are programmed into in C08.",
    technique="deterministic simulation: real EEPROM stack over a simulated SII state machine with device-side lag, seeded images and ranges, byte-exact oracle", section="DESIGN.md §4 C12")
 CLAIMED["C13"] = dict(
-   text="Hostile EEPROM images (blank, random, structured-then-mutated: hostile category lengths, no end marker, size word >= 511, bit flips, index/count extremes, truncation, maximal PDO bit sums) on a simulated device; init, description, eeprom_size, an extreme range read and into_op run under catch_unwind with a step budget and a per-word SII read counter; the batch runs twice, in a release build and in a build with overflow checks and debug assertions.",
+   text="Hostile EEPROM images (blank, random, structured-then-mutated: hostile category lengths, no end marker, size word >= 511, bit flips, index/count extremes, truncation, maximal PDO bit sums, category chains that leave the address space exactly at its end and lead back through the header area, FMMU_EX categories of 17..37 entries) on a simulated device; init, description, eeprom_size, an extreme range read and into_op run under catch_unwind with a step budget and a per-word SII read counter; the batch runs twice, in a release build and in a build with overflow checks and debug assertions.",
    note="Budget: 3e6 executor steps per operation; a single SII word read more than 70000 times counts as a loop.",
    technique="deterministic simulation with device-side fault injection (sii_garbage) under two arithmetic profiles; panic/step/loop monitors", section="DESIGN.md §4 C13")
 CLAIMED["C14"] = dict(
@@ -48,16 +48,16 @@ CLAIMED["C14"] = dict(
    technique="deterministic simulation: real EEPROM write path over a simulated SII with injected command errors/busy, array-diff oracle", section="DESIGN.md §4 C14")
 
 CLAIMED["C07"] = dict(
-   text="0..8 simulated devices with drawn PDO sets are brought to OP through the real init/into_op (DC variant through into_pre_op_pdi + configure_dc_sync), with frame sizes from the smallest a session works with up to 1514; 1..5 cycles of tx_rx / tx_rx_sync_system_time / tx_rx_dc with fresh outputs and inputs. Oracle over the recorded wire log and the model: LRW datagrams tile the group window without gap/overlap and fit the frame size, exactly one leading FRMW to the reference clock whose answer is the reported time, inputs()/outputs() against the devices' memory and what was written, working counter sum, state list in group order, frame count against an independent greedy packer, termination within the step budget (lock contention is reported as a deadlock, not spun on).",
-   note="MAX_PDI = 4096, MAX_SUBDEVICES = 16; fault-free wire and devices; frames below 44 bytes cannot complete init and are not drawn.",
+   text="0..8 simulated devices with drawn PDO sets are brought to OP through the real init/into_op (DC variant through into_pre_op_pdi + configure_dc_sync), with frame sizes from the smallest a session works with up to 1514; 1..5 cycles of tx_rx / tx_rx_sync_system_time / tx_rx_dc with fresh outputs and inputs; in a fifth of the cycles one member leaves its state check unanswered (its entry must read no-state, in place). Oracle over the recorded wire log and the model: LRW datagrams tile the group window without gap/overlap and fit the frame size, exactly one leading FRMW to the reference clock whose answer is the reported time, inputs()/outputs() against the devices' memory and what was written, working counter sum, state list in group order, frame count against an independent greedy packer, termination within the step budget (lock contention is reported as a deadlock, not spun on).",
+   note="MAX_PDI = 4096, MAX_SUBDEVICES = 16; fault-free wire, devices fault-free except for the unanswered state check; frames below 44 bytes cannot complete init and are not drawn.",
    technique="deterministic simulation: real cycle code against the segment reference model (FMMU/SM/logical memory) under virtual time, seeded configurations, wire-log oracle", section="DESIGN.md §4 C07")
 CLAIMED["C08"] = dict(
-   text="1..6 simulated devices with random PDO sets (1..3 process data sync managers per direction, adjacent or not, CoE or EEPROM configuration path, FMMU_EX, oversampling) in 1..3 groups; structural oracle (window lengths from the description, disjointness, inputs before outputs, SM registers, every sync manager byte mapped by an FMMU of the right direction, global logical disjointness) and behavioural oracle (distinct pattern per device, one cycle, each device's output RAM holds its own pattern, no other RAM byte of any device changed, inputs() shows the device's own input RAM); devices refuse SAFE-OP on a sync manager configuration other than their own. Two open known findings (FMMU choice for non-adjacent sync managers on the CoE path; FMMU chosen by sync manager index on the EEPROM path) are reported as KNOWN-FINDING and quarantined in 60% of runs.",
+   text="1..6 simulated devices with random PDO sets (1..3 process data sync managers per direction, adjacent or not, CoE or EEPROM configuration path, FMMU_EX, oversampling) in 1..3 groups whose declared image capacities are 4096 bytes or, in a quarter of the runs, 4..24 bytes (a layout beyond the capacity must be refused on both routes to SAFE-OP); oversampling tables that name first and non-first PDOs; SII sync managers with and without usage byte; structural oracle (window lengths from the description, disjointness, inputs before outputs, SM registers, every sync manager byte mapped by an FMMU of the right direction, global logical disjointness) and behavioural oracle (distinct pattern per device, one cycle, each device's output RAM holds its own pattern, no other RAM byte of any device changed, inputs() shows the device's own input RAM); devices refuse SAFE-OP on a sync manager configuration other than their own. Two open known findings (FMMU choice for non-adjacent sync managers on the CoE path; FMMU chosen by sync manager index on the EEPROM path) are reported as KNOWN-FINDING and quarantined in 60% of runs.",
    note="A device implements exactly the FMMUs its EEPROM lists in tight configurations; bit-granular FMMUs are modelled but never programmed by ethercrab.",
    technique="deterministic simulation: real configuration + cycle code against the segment reference model, seeded device populations, structural + behavioural memory oracle", section="DESIGN.md §4 C08")
 
 CLAIMED["C10"] = dict(
-   text="1..16 simulated devices in 1..3 groups; one of six transition sequences (into_safe_op, into_op, request_into_op, into_init, OP->SAFE-OP, SAFE-OP->PRE-OP) on one group while each member's AL state machine is scripted for the faulted state (accept after k polls, refuse with a status code, stall forever, reach the state and fall back later), with frame sizes small enough that a status round needs several frames. Oracle: Ok => every member's last reported AL status was the claimed state; a refusing/stalling member => Err within the transition timeout in simulated time; AL control writes reached exactly the members; after into_op, cycles with scripted reported states (incl. devices that stop answering) compare the state list and all_op/is_in_state/group_in_single_state with independent recomputations.",
+   text="1..16 simulated devices in 1..3 groups; one of six transition sequences (into_safe_op, into_op, request_into_op, into_init, OP->SAFE-OP, SAFE-OP->PRE-OP) on one group while each member's AL state machine is scripted for the faulted state, optionally with the response of one status-poll frame lost on the wire (accept after k polls, refuse with a status code, stall forever, reach the state and fall back later), with frame sizes small enough that a status round needs several frames. Oracle: Ok => every member's last reported AL status was the claimed state; a refusing/stalling member => Err within the transition timeout in simulated time; AL control writes reached exactly the members; after into_op, cycles with scripted reported states (incl. devices that stop answering) compare the state list and all_op/is_in_state/group_in_single_state with independent recomputations.",
    note="Refusal = old state + error bit + status code; 'requested state and error bit at once' is not generated. BOOT/undefined values constrain the summaries one way only (documented ambiguity of the bit-set).",
    technique="deterministic simulation with device-side fault injection (dev_lag, dev_refuse, stall, dev_fallback, dropout) under a virtual clock; reference recomputation of summaries", section="DESIGN.md §4 C10")
 CLAIMED["C11"] = dict(
